@@ -190,6 +190,9 @@ def items(tier):
         out.append((i, 'fx', 2, k, k + 1))
         i += 1
     for W in Ws:
+        out.append((i, 'cli', W, 0, 0))
+        i += 1
+    for W in Ws:
         d1 = depth1(consts(W))
         for lo in range(0, len(d1), 400):
             out.append((i, 'd1', W, lo, lo + 400))
@@ -242,6 +245,9 @@ def run_lines(src, W):
 def run_item(item, tier):
     st = Stats()
     W = item[2]
+    if item[1] == 'cli':
+        cli_twin(st, W)
+        return st
     if item[1] == 'fx':
         from ..cases import run_program
         e = EFFECT_EXPRS[item[3]]
@@ -263,6 +269,56 @@ def run_item(item, tier):
     if es:
         st.sample({'W': W, 'expression': es[0][1], 'variable_form': variable_form(*es[0]), 'count_in_item': len(es)})
     return st
+
+
+def cli_twin(st, W):
+    """The same twins through the real command-line driver: constant forms compiled by `python -m hidc -m<bits>`, run on the VM,
+    must print what the reference computes for run-time evaluation."""
+    import os
+    import subprocess
+    import sys
+    import tempfile
+    from .. import hid
+    d1 = depth1(consts(W, True))
+    ok = []
+    for t, e in d1:
+        kind, line = wrapped_eval(t, e, W)
+        if kind == 'ok':
+            ok.append((t, e, line))
+    ok = ok[::5][:160]
+    d = tempfile.mkdtemp(prefix='hv_c14_')
+    try:
+        for lo in range(0, len(ok), BATCH):
+            part = ok[lo:lo + BATCH]
+            csrc, _ = forms(part, lo // BATCH)
+            path = os.path.join(d, f'b{lo}.hid')
+            with open(path, 'w') as f:
+                f.write(csrc)
+            env = dict(os.environ)
+            env['PYTHONPATH'] = hid.REPO
+            p = subprocess.run([sys.executable, '-m', 'hidc', path, f'-m{8 * W}', '-s64', '-o', path + '.s'], env=env, stdout=subprocess.PIPE, stderr=subprocess.PIPE, timeout=120)
+            st.add('evaluations', len(part))
+            case = {'kind': 'cli', 'W': W, 'lo': lo}
+            if p.returncode != 0:
+                st.viol(f'W={W}: command-line compile of constant-form batch failed: {p.stderr.decode()[-200:]}', case)
+                continue
+            lines = open(path + '.s', 'rb').read().split(b'\n')
+            r = svm.run(svm.assemble(lines, [], strict_header=True), 2_000_000)
+            st.vm(r)
+            want = b''.join(l for _, _, l in part)
+            if r.outcome != 'loop' or r.output != want:
+                got = r.output.split(b'\n')
+                w2 = want.split(b'\n')
+                k = next((j for j in range(min(len(got), len(w2))) if got[j] != w2[j]), min(len(got), len(w2)))
+                st.viol(f'W={W}: compiled with `python -m hidc -m{8 * W}`, {part[k][1] if k < len(part) else "?"} prints {got[k] if k < len(got) else None!r} '
+                        f'but evaluates to {w2[k] if k < len(w2) else None!r} at run time', case)
+            else:
+                st.add('twins_equal', len(part))
+                st.add('traces_validated_against_impl', len(part))
+    finally:
+        import shutil
+        shutil.rmtree(d, ignore_errors=True)
+    st.sample({'cli_twin_word_size': W, 'expressions': len(ok)})
 
 
 def forms(batch_, k):
@@ -430,6 +486,7 @@ def coverage(total, tier):
         'chains': 'depth 3 left chains, balanced trees and cast/comparison mixes over 4 constants x 4 operators' + ('' if tier == 'thorough' else ' (every 9th)'),
         'effects': f'{len(EFFECT_EXPRS)} expressions that are partly constant and partly effectful or faulting (array-literal length/index/truthiness with call or '
                    'faulting elements, x*0, short-circuit with constants, ?? of equal constants), compared with the reference interpreter on inputs z in 0,1',
+        'cli': 'every 5th depth-1 expression over the reduced constants compiled through the real `python -m hidc -m<bits>` driver and run on the VM (W 2,3,4)',
         'presentations': 'literal in place, const local, const global, non-const global initialiser (rotating); variable form: every literal in a non-const local',
         'word_sizes': '2,3,4',
     })
@@ -450,6 +507,10 @@ def replay(case):
     if case.get('kind') == 'conformance':
         from ..cases import replay_conformance
         return replay_conformance(case)
+    if case.get('kind') == 'cli':
+        st2 = Stats()
+        cli_twin(st2, case['W'])
+        return [v['msg'] for v in st2.get('viol', [])]
     st = Stats()
     t, e, W = case['t'], case['e'], case['W']
     if case.get('fault'):
